@@ -38,6 +38,8 @@ impl Workspace {
     //@@ end
     //@@ fn crates/rip-workspace/src/lib.rs Workspace::to_relative
     //@@ end
+    //@@ fn crates/rip-workspace/src/lib.rs Workspace::safe_join
+    //@@ end
     //@@ fn crates/rip-workspace/src/lib.rs Workspace::list_checkpoints
     //@@ end
 }
@@ -96,6 +98,24 @@ fn main() {
     if !(label.starts_with("checkpoint") || label.contains("create_checkpoint") || label.contains("rewind")) { return; }
     let base = std::env::temp_dir().join(format!("rip-verif-c14-{}", std::process::id()));
     let _ = fs::remove_dir_all(&base);
+    // a stored record is data: whatever path it names (a damaged or hand-written checkpoint file - the store lies inside the workspace and
+    // every file tool may write to it), a rewind touches nothing outside the root
+    for bad in ["../escape.txt", "d/../../escape.txt", "/ABS_ESCAPE"] { for exists in [true, false] {
+        let outer = base.join(format!("crafted{}{}", bad.len(), exists)); let root = outer.join("ws");
+        let ws = Workspace { root: root.clone(), checkpoints_dir: root.join(".rip").join("checkpoints") };
+        let cp = ws.checkpoints_dir.join("s").join("cp"); fs::create_dir_all(cp.join("files").join("d")).unwrap();
+        let abs_target = outer.join("abs_escape.txt");
+        let named = if bad.starts_with('/') { abs_target.to_string_lossy().to_string() } else { bad.to_string() };
+        fs::write(cp.join("escape.txt"), "stored").unwrap(); fs::write(cp.join("files").join("escape.txt"), "stored").unwrap();
+        fs::write(outer.join("escape.txt"), "outside").unwrap(); fs::write(&abs_target, "outside").unwrap();
+        fs::write(cp.join("checkpoint.json"), format!("cp\ns\nl\n0\n{}\t{}\t\n", named, exists)).unwrap();
+        let res = ws.rewind_to_checkpoint("s", "cp").map_err(|e| e.to_string());
+        let ok = fs::read_to_string(outer.join("escape.txt")).ok().as_deref() == Some("outside") && fs::read_to_string(&abs_target).ok().as_deref() == Some("outside");
+        if !ok {
+            println!("WITNESS {{\"function\": \"Workspace::rewind_to_checkpoint\", \"stored_record_names\": {:?}, \"recorded_as_existing\": {}, \"rewind_result\": {:?}, \"problem\": \"a file outside the workspace root was written or removed\"}}", named, exists, res);
+            let _ = fs::remove_dir_all(&base); return;
+        }
+    } }
     let files = ["a.txt", "d/b\\c.txt"];      // the second name holds a backslash: on Unix an ordinary character of the file name
     let mut case = 0u64;
     // state of each file: 0 absent, 1 "v1", 2 "v2"; before checkpoint x after edits x which files are covered x how they are named x cwd x sabotage
